@@ -334,6 +334,8 @@ func c01walk(c *Ctx) {
 		r.Check(found && len(reach.Returns()) == 0, "PATH", fkey(fn)+"/index-entry-added", c.Pos(fn.Pos()), "a live quota is always entered into the index", "a live quota can be added without being entered into the quota->tree index")
 	}
 
+	quotaHandover(c)
+
 	// ---- a delete releases what the event says, not what was remembered at add time
 	r.Rule("FLOW(delete uses the event's object): in Plugin.OnPodDelete the pod handed to handlePodDelete comes only from the type assertions on the event object (the pod itself or the tombstone's .Obj): the quota's pod cache holds the version seen at add time (updates are booked as deltas), so releasing by a cached version leaves the difference behind in used/request of the group and its ancestors")
 	if fn := c.Fn(quotaPluginPkg, "Plugin", "OnPodDelete"); fn != nil {
@@ -1137,4 +1139,50 @@ func c01recompute(c *Ctx, fn *ssa.Function, st *ssa.Store, n int) {
 	}
 	r.Check(fromChild && same && len(other) == 0 && raiseOK && nRaise >= 1 && !minDirect, "FLOW", key, c.InstrPos(st), "Request = copy of ChildRequest, raised to Min only for non-lending groups and only where Min is greater",
 		sprintf("the recomputed Request is wrong: derives from ChildRequest=%v of the same group=%v, other figures mixed in=%v, %d raise sites, all well-formed=%v (%s), Min assigned directly=%v", fromChild, same, other, nRaise, raiseOK, strings.Join(why, "; "), minDirect))
+}
+
+// quotaHandover: a re-parented quota takes its pod records along (shared by C01 and C03).
+func quotaHandover(c *Ctx) {
+	r := c.R
+	r.Rule("HANDOVER(pod records): in updateQuotaNoLockWhenParentChange the new QuotaInfo's PodCache is assigned the saved old QuotaInfo's PodCache (the PodInfo records with their isAssigned marks), before the new info is stored into quotaInfoMap, and the new info is not re-filled through addPodIfNotPresent (which creates unassigned records while Used/SelfUsed are carried over: the next event of such a pod charges it a second time)")
+	if fn := c.Fn(quotaCorePkg, "GroupQuotaManager", "updateQuotaNoLockWhenParentChange"); fn != nil {
+		var st *ssa.Store
+		refill := false
+		for _, b := range fn.Blocks {
+			for _, in := range b.Instrs {
+				switch x := in.(type) {
+				case *ssa.Store:
+					if _, f, base, ok := an.FieldOf(x.Addr); ok && f == "PodCache" {
+						if cl, _ := an.ResultOfCall(firstSource(rootOf(base))); cl != nil && an.ShortCallee(&cl.Call) == "NewQuotaInfoFromQuota" {
+							if ld, isLd := x.Val.(*ssa.UnOp); isLd && ld.Op == token.MUL {
+								if _, f2, b2, ok := an.FieldOf(ld.X); ok && f2 == "PodCache" {
+									if c2, _ := an.ResultOfCall(firstSource(rootOf(b2))); c2 != nil && an.ShortCallee(&c2.Call) == "DeepCopy" {
+										st = x
+									}
+								}
+							}
+						}
+					}
+				case *ssa.Call:
+					if an.ShortCallee(&x.Call) == "addPodIfNotPresent" {
+						refill = true
+					}
+				}
+			}
+		}
+		before := false
+		if st != nil {
+			for _, b := range fn.Blocks {
+				for _, in := range b.Instrs {
+					if mu, ok := in.(*ssa.MapUpdate); ok && strings.HasSuffix(an.Path(mu.Map), ".quotaInfoMap") {
+						if cl, _ := an.ResultOfCall(firstSource(mu.Value)); cl != nil && an.ShortCallee(&cl.Call) == "NewQuotaInfoFromQuota" {
+							before = mustPass(st, mu)
+						}
+					}
+				}
+			}
+		}
+		r.Check(st != nil && before && !refill, "HANDOVER", fkey(fn)+"/pod-records", c.Pos(fn.Pos()), "the pod records (with their assigned marks) move to the new info", sprintf("the re-parented quota does not take over the old pod records (PodCache handed over=%v, before the new info is recorded=%v, re-filled through addPodIfNotPresent=%v): pods lose their assigned mark while their used amount is carried over", st != nil, before, refill))
+	}
+
 }
